@@ -156,6 +156,7 @@ func normIdents(s string, w *World) string {
 	s = rePtrAssign.ReplaceAllString(s, "cannot use <literal> as pointer value in assignment")
 	s = reUnknownField.ReplaceAllString(s, "unknown field (built from a default's key) in struct literal")
 	s = reDefIdent.ReplaceAllString(s, "<identifier of a definition>")
+	s = rePosition.ReplaceAllString(s, "")
 	return s
 }
 
@@ -164,6 +165,8 @@ var (
 	reDefIdent     = regexp.MustCompile(`<identifier of name of definition for [^>]*>`)
 	reUnknownField = regexp.MustCompile(`unknown field (<default key>)+ in struct literal of type .*`)
 )
+
+var rePosition = regexp.MustCompile(` at [\w/.]+\.go:\d+:\d+`)
 
 var reConstVal = regexp.MustCompile(`constant [0-9.e+\-]+\)`)
 
